@@ -1321,12 +1321,16 @@ def split_host_and_port(netloc: str) -> tuple[str, int | None]:
     .. versionadded:: 4.1
     """
     match = _netloc_re.match(netloc)
+    host = netloc
+    port: int | None = None
     if match:
-        host = match.group(1)
-        port: int | None = int(match.group(2))
-    else:
-        host = netloc
-        port = None
+        try:
+            port = int(match.group(2))
+        except ValueError:
+            # Absurdly long digit strings exceed int()'s conversion limit.
+            pass
+        else:
+            host = match.group(1)
     return (host, port)
 
 
